@@ -103,12 +103,28 @@ def monitor(case):
     both implementations and their final storage with it.  Returns a
     description of the first violation or None.  Sound: histories containing an
     operand outside the property's operand set are not judged."""
-    if case.get('hostile'):
-        return None
+    waves = case['waves']
+    # a newly dispatched wavefront sees only its dispatch-initialised state, whatever the previous occupant left
+    for i, f in [(-1, case.get('fresh0'))] + [(i, a.get('fresh')) for i, a in enumerate(case['accs']) if a['api'] == 'newgen']:
+        m = fresh_violation(f, i)
+        if m:
+            return m
+    m = None if case.get('hostile') else monitor_values(case)
+    if case.get('decoder_count_drift'):
+        return ((m + '; ' if m else '') + 'the disassembler attached a RegCount to an operand that its instruction does not have '
+                '(operand objects shared between instructions?): %s' % case['decoder_count_drift'][0])
+    return m
+
+
+def monitor_values(case):
     waves = case['waves']
     spec = {'emu': [Cells(w, 102, 256) for w in range(len(waves))],
             'tim': [Cells(w, wv['nsgpr'], wv['nvgpr']) for w, wv in enumerate(waves)]}
     for i, a in enumerate(case['accs']):
+        if a['api'] == 'newgen':    # new wavefronts, refilled by the harness with the initial pattern
+            spec = {'emu': [Cells(w, 102, 256) for w in range(len(waves))],
+                    'tim': [Cells(w, wv['nsgpr'], wv['nvgpr']) for w, wv in enumerate(waves)]}
+            continue
         sides = [s for s in ('emu', 'tim') if a.get(s) is not None]
         if a['api'] == 'reset':
             sp = spec['tim'][a['w']]
@@ -231,6 +247,30 @@ def monitor(case):
     return None
 
 
+def fresh_violation(f, i):
+    if not f:
+        return None
+    where = 'the first work-group' if i < 0 else 'the work-group dispatched at access %d' % i
+    for side, name in (('emu', 'emulator'), ('tim', 'timing')):
+        for w, d in enumerate(f.get(side) or []):
+            bad = []
+            for k in ('vcc', 'scc', 'm0'):
+                if d[k] != 0:
+                    bad.append('%s = 0x%x' % (k, d[k]))
+            if d['exec'] != 0xffffffffffffffff:
+                bad.append('exec = 0x%x (dispatch sets all lanes)' % d['exec'])
+            if d['ns']:
+                bad.append('%d scalar registers non-zero, e.g. s%d = 0x%x' % (d['ns'], d['s'][0][0], d['s'][0][1]))
+            if d['nv']:
+                bad.append('%d vector registers non-zero, e.g. lane %d v%d = 0x%x' % (d['nv'], d['v'][0][0], d['v'][0][1], d['v'][0][2]))
+            if not d['v0ok']:
+                bad.append('v0 does not hold the work-item ids')
+            if bad:
+                return ('%s wavefront %d of %s does not start from the dispatch-initialised state (what the previous occupant '
+                        'left is visible): %s' % (name, w, where, '; '.join(bad)))
+    return None
+
+
 # ---------------------------------------------------------------- plumbing
 
 IN_KEYS = ('w', 'side', 'api', 'reg', 'idx', 'cnt', 'lane', 'bc', 'data', 'val', 'lanes')
@@ -239,6 +279,12 @@ IN_KEYS = ('w', 'side', 'api', 'reg', 'idx', 'cnt', 'lane', 'bc', 'data', 'val',
 def strip(case):
     return {'waves': case['waves'], 'hostile': case.get('hostile', False),
             'accs': [{k: a[k] for k in IN_KEYS if k in a} for a in case['accs']]}
+
+
+def slim(case):
+    c = dict(case)
+    c.pop('coq', None)
+    return c
 
 
 def run_impl(binary, cases=None, seed=1, n=100):
@@ -263,6 +309,9 @@ def nontrivial(case):
         return False
     written = set()
     for a in case['accs']:
+        if a['api'] == 'newgen':
+            written = set()
+            continue
         if a['api'] in ('reset', 'sload', 'vload'):
             continue
         cells = cells_of(a['reg'], a['idx'], a['cnt'], a.get('lane', 0), 102, 256)
@@ -294,6 +343,7 @@ def check_shapes(binary, rep):
     d = json.load(open(tmp))
     os.remove(tmp)
     shapes = [(r, int(c)) for r, c in d['shapes']]
+    check_shapes.aliasing = d.get('aliasing') or []
     want_sizes = {'s': 4, 'v': 4, 'vcc': 8, 'vcclo': 4, 'vcchi': 4, 'exec': 8, 'execlo': 4, 'exechi': 4, 'scc': 1, 'm0': 4}
     bad = [k for k, v in want_sizes.items() if d['bytesize'].get(k) != v]
     if bad:
@@ -323,7 +373,7 @@ def main(argv):
                        'inside the register files; histories are arbitrary finite lists',
                        'sampled histories only decide whether the real code still behaves like the models']
     thorough = vlib.tier() == 'thorough'
-    n = 4000 if thorough else 350
+    n = 4000 if thorough else 300
 
     replay_file = argv[argv.index('--replay') + 1] if '--replay' in argv else None
 
@@ -348,6 +398,9 @@ def main(argv):
         rep.obligation('decoder operand shapes match the classification of the models', False)
         rep.violation({'property': PROP, 'broken': err}, nofail=True, text=err)
         return rep.finish()
+    aliasing = getattr(check_shapes, 'aliasing', [])
+    rep.obligation('operand objects returned by the real disassembler are not aliased between instructions '
+                   '(decode b32 / b64 / b32 of every special operand code, pointer identity, RegCount stability, mutation)', not aliasing)
     covered = [(r, c) for r, c in shapes if shape_covered(r, c)]
     oks, mism_s, slog = vlib.eval_cases(PROP + '_shapes', HEADER,
                                         ['[%s]' % '; '.join('(%s, %d)' % (REG_COQ.get(r, 'ROther'), c) for r, c in shapes)],
@@ -383,11 +436,11 @@ def main(argv):
 
     bad = [(i, monitor(c)) for i, c in enumerate(cases)]
     bad = [(i, m) for i, m in bad if m]
-    okc, mism, clog = vlib.eval_cases(PROP, HEADER, [c['coq'] for c in cases], shard_size=max(20, (len(cases) + 15) // 16))
+    okc, mism, clog = vlib.eval_cases(PROP, HEADER, [t for c in cases for t in c['coq']], shard_size=max(20, (len(cases) + 15) // 16))
     rep.obligation('correspondence: %d histories (every answer of both register stores + final storage) evaluated by the models' % len(cases),
                    okc and not mism)
 
-    hist = collections.Counter((a['api'], a['reg']) for c in cases for a in c['accs'])
+    hist = collections.Counter((a['api'], a.get('reg', '')) for c in cases for a in c['accs'])
     rep.coverage.update({
         'evaluations': len(cases),
         'distinct_nontrivial': len({vlib.case_hash(strip(c)) for c in cases if nontrivial(c)}),
@@ -400,8 +453,8 @@ def main(argv):
         'traces_validated_against_impl': len(cases),
         'accesses': sum(len(c['accs']) for c in cases),
         'api_histogram': {k: v for k, v in collections.Counter(a['api'] for c in cases for a in c['accs']).items()},
-        'register_histogram': {k: v for k, v in collections.Counter(a['reg'] for c in cases for a in c['accs'] if a['api'] != 'reset').items()},
-        'regcount_histogram': {str(k): v for k, v in sorted(collections.Counter(a['cnt'] for c in cases for a in c['accs'] if a['api'] != 'reset').items())},
+        'register_histogram': {k: v for k, v in collections.Counter(a.get('reg', '') for c in cases for a in c['accs'] if a['api'] not in ('reset', 'newgen')).items()},
+        'regcount_histogram': {str(k): v for k, v in sorted(collections.Counter(a.get('cnt', 0) for c in cases for a in c['accs'] if a['api'] not in ('reset', 'newgen')).items())},
         'lanes_touched': len({a.get('lane', 0) for c in cases for a in c['accs'] if a.get('reg') == 'v'}),
         'panics_observed': sum(1 for c in cases for a in c['accs'] for s in ('emu', 'tim') if a.get(s) and a[s].get('panic')),
         'hostile_cases': sum(1 for c in cases if c.get('hostile')),
@@ -442,9 +495,15 @@ def main(argv):
         rep.violation({'property': PROP, 'what': monitor(out[0]) if out else msg, 'case': out[0] if out else strip(c),
                        'monitor_failures_in_run': len(bad), 'replay_cmd': './check C07 --replay <this file>'},
                       text=(monitor(out[0]) if out else msg) + ' (%d of %d histories fail)' % (len(bad), len(cases)))
+    elif aliasing:
+        rep.violation({'property': PROP, 'what': 'operand objects returned by the disassembler are aliased between instructions',
+                       'input': 'decode s_mov_b32 <reg>, 0 (0xBE800080 | code << 16); s_mov_b64 <reg>, 0 (0xBE800180 | code << 16); s_mov_b32 <reg>, 0 again',
+                       'findings': aliasing}, text='decoder operand aliasing: ' + aliasing[0])
     elif mism or not okc or not shape_ok:
         if mism or not okc:
             i, k = mism[0] if mism else (0, 0)
+            owner = [ci for ci, cc in enumerate(cases) for _ in cc['coq']]    # model terms are per wavefront generation
+            i = owner[i] if i < len(owner) else 0
             c = dict(cases[i]) if cases else None
             if c:
                 c.pop('coq', None)
